@@ -145,7 +145,7 @@ impl Prop for C19 {
         true
     }
     fn random_cases(tier: Tier) -> u64 {
-        tier.pick(4_000, 60_000)
+        tier.pick(4_000, 3_000_000)
     }
     fn strategy(_tier: Tier) -> BoxedStrategy<Case> {
         prop_oneof![
